@@ -8,7 +8,7 @@ use std::cell::RefCell;
 use std::rc::Rc;
 use zmq_simrt as rt;
 
-pub const NATTACKS: u64 = 24;
+pub const NATTACKS: u64 = 31;
 
 fn be64(x: u64) -> Vec<u8> {
     x.to_be_bytes().to_vec()
@@ -98,6 +98,27 @@ fn attack(n: u64, ctx: &Ctx) -> (Vec<u8>, &'static str) {
             f.extend(be64(100_000_000));
             f.extend_from_slice(&[7; 10]);
             (f, "100 MB frame declared, 10 bytes sent")
+        }
+        24..=30 => {
+            // a huge frame is declared and a good part of it is really delivered: whatever the
+            // decoder does once "enough" of a frame has arrived must still not be sized after the
+            // declared length
+            let (flag, len, body) = [
+                (2u8, (1u64 << 63) + 0x1000, 300 << 10),
+                (2, 1 << 40, 300 << 10),
+                (2, 256 << 20, 300 << 10),
+                (2, (1 << 63) + 0x1000, 1 << 20),
+                (3, 256 << 20, 1 << 20),
+                (6, 256 << 20, 300 << 10),
+                (2, 64 << 20, 9000),
+            ][(n - 24) as usize];
+            let mut f = vec![flag];
+            f.extend(be64(len));
+            if flag == 6 {
+                f.extend_from_slice(b"\x05READY");
+            }
+            f.extend(std::iter::repeat(7u8).take(body));
+            (f, "huge frame declared and hundreds of KiB of it delivered")
         }
         _ => {
             let mut f = Vec::new();
@@ -308,7 +329,9 @@ fn catalogue(ctx: &mut Ctx) {
     let a = (ctx.idx / 27) % NATTACKS;
     let disturbed = ctx.idx >= 27 * NATTACKS;
     if disturbed {
-        world::swarm(ctx, SwarmOpts::default());
+        // attacks that deliver hundreds of KiB are not combined with one-byte chunking: a million
+        // reads exceed the step budget without telling anything about the property
+        world::swarm(ctx, SwarmOpts { tiny_chunks: !(24..=30).contains(&a), ..SwarmOpts::default() });
     } else {
         world::plain(ctx);
     }
@@ -393,7 +416,7 @@ pub fn def() -> PropDef {
     PropDef {
         id: "C03",
         level: "exploration",
-        rule: "catalogue: the case index enumerates socket kind (9) x stage {first bytes, after a valid greeting, after a valid handshake} x 24 structure-aware attacks (truncated/oversized commands, property lengths beyond the frame, non-UTF-8 names, 64-bit sizes 2^31..2^64-1 on message and command frames, thousands of MORE frames in one segment, bad signature/version/mechanism, reserved flags, random bytes), first undisturbed then under drawn transport/schedule, with and without a closing attacker; alphabet: all 19607 strings of length <= 5 over {00,01,02,04,06,05,ff} x {after greeting, after handshake} (thorough: enumerated; quick: sampled); mutated: random mutations of a valid stream; a healthy peer exchanges tagged traffic before and after; oracles: no panic in any task or API call, worker process survives (stack overflow / abort are seen as signals by the driver), largest single allocation after the first hostile byte <= 256 KiB + 64 x bytes sent, healthy traffic still delivered; non-trivial = judgement reached; distinct = distinct (case, plan, schedule, transport)",
+        rule: "catalogue: the case index enumerates socket kind (9) x stage {first bytes, after a valid greeting, after a valid handshake} x 31 structure-aware attacks (truncated/oversized commands, property lengths beyond the frame, non-UTF-8 names, 64-bit sizes 2^31..2^64-1 on message and command frames, thousands of MORE frames in one segment, huge declared frames of which 9 KiB .. 1 MiB are really delivered, bad signature/version/mechanism, reserved flags, random bytes), first undisturbed then under drawn transport/schedule, with and without a closing attacker; alphabet: all 19607 strings of length <= 5 over {00,01,02,04,06,05,ff} x {after greeting, after handshake} (thorough: enumerated; quick: sampled); mutated: random mutations of a valid stream; a healthy peer exchanges tagged traffic before and after; oracles: no panic in any task or API call, worker process survives (stack overflow / abort are seen as signals by the driver), largest single allocation after the first hostile byte <= 256 KiB + 64 x bytes sent, healthy traffic still delivered; non-trivial = judgement reached; distinct = distinct (case, plan, schedule, transport)",
         assumptions: &["run thread stack 2 MiB (tokio's worker default) and the library built unoptimised with debug assertions: both are documented parameters of the stack-depth clause", "allocation failure itself is not injected; the size of requests is judged"],
         strata: vec![
             Stratum { name: "catalogue", quick: 27 * NATTACKS * 8, thorough: (27 * NATTACKS * 200) * 10, exhaustive: (true, true), run: catalogue, what: "kind x stage x attack catalogue" },
